@@ -912,3 +912,53 @@ pub fn c31_from_percentile_sound() {
   }
   kani::cover!(Sat::from_percentile(&text).is_ok(), "some percentage is accepted");
 }
+
+// ---------------------------------------------------------------------------------------------
+// C30 / C31: the name notation (bounded: the base-26 loops run over String / chars, which CBMC only
+// carries for a few letters)
+
+/// from_name on "<letter><c>" with c over ALL of Unicode: accepted exactly when c is a lowercase ASCII
+/// letter, and then the sat is SUPPLY minus the modified base-26 value; anything else is an error,
+/// never a panic.
+//# props: C31, C30
+//# kind: bounded(two-character names: one symbolic lowercase letter followed by one symbolic char over all of Unicode)
+//# fns: Sat::from_name
+//# tier: thorough
+//# timeout: 600
+#[cfg_attr(kani, kani::proof)]
+#[cfg_attr(kani, kani::unwind(8))]
+pub fn c31_sat_from_name_two_chars() {
+  let a: u8 = kani::any();
+  kani::assume(a >= b'a' && a <= b'z');
+  let c: char = kani::any();
+  let mut s = String::with_capacity(8);
+  s.push(a as char);
+  s.push(c);
+  let got = Sat::from_name(&s);
+  if c >= 'a' && c <= 'z' {
+    let x = ((a - b'a') as u64 + 1) * 26 + (c as u64 - 'a' as u64) + 1;
+    assert!(matches!(got, Ok(Sat(n)) if n == Sat::SUPPLY - x), "C31.from_name.value_is_supply_minus_base26");
+  } else {
+    assert!(got.is_err(), "C31.from_name.only_lowercase_ascii_letters_are_accepted");
+  }
+}
+
+/// the name of each of the last 702 sats (names of one or two letters) parses back to that sat.
+/// STATUS: tier manual - CBMC did not finish it in 10 minutes (String building in Sat::name); it is
+/// run by neither command and counted nowhere.
+//# props: C30
+//# kind: bounded(the sats whose names have one or two letters: SUPPLY-702 ..= SUPPLY-1)
+//# fns: Sat::name, Sat::from_name
+//# tier: manual
+//# timeout: 600
+#[cfg_attr(kani, kani::proof)]
+#[cfg_attr(kani, kani::unwind(8))]
+pub fn c30_name_round_trip_short() {
+  let x: u64 = kani::any();
+  kani::assume(x >= 1 && x <= 26 + 26 * 26);
+  let sat = Sat(Sat::SUPPLY - x);
+  let name = sat.name();
+  assert!(name.len() == if x <= 26 { 1 } else { 2 }, "C30.name.length_is_number_of_base26_digits");
+  let back = Sat::from_name(&name);
+  assert!(matches!(back, Ok(s) if s == sat), "C30.name.parses_back_to_the_same_sat");
+}
